@@ -305,30 +305,24 @@ StmtCtx == <<
 
 Truth(t, xs) == IF "never" \in xs THEN "no" ELSE t
 
-StmtRecords ==
-  { [rec |-> "stmt", form |-> ExprForms[k][1], syn |-> "expr", label |-> ExprForms[k][4],
-     outer |-> Outer[o][1], inner |-> "",
-     text |-> Outer[o][2] \o ExprForms[k][5] \o Outer[o][3],
-     truth |-> Truth(ExprForms[k][2], {Outer[o][4]}),
-     thr |-> ExprForms[k][3] /\ Outer[o][4] = "same",
-     formTruth |-> ExprForms[k][2]]
-    : k \in 1..Len(ExprForms), o \in 1..Len(Outer) }
-  \cup
-  { [rec |-> "stmt", form |-> ExprForms[k][1], syn |-> "expr", label |-> ExprForms[k][4],
-     outer |-> Outer[o][1], inner |-> Inner[i][1],
-     text |-> Outer[o][2] \o Inner[i][2] \o ExprForms[k][5] \o Inner[i][3] \o Outer[o][3],
-     truth |-> Truth(ExprForms[k][2], {Outer[o][4], Inner[i][4]}),
-     thr |-> ExprForms[k][3] /\ Outer[o][4] = "same" /\ Inner[i][4] = "same",
-     formTruth |-> ExprForms[k][2]]
-    : k \in 1..Len(ExprForms), o \in 1..Len(Outer), i \in 1..Len(Inner) }
-  \cup
-  UNION { { [rec |-> "stmt", form |-> StmtForms[k][1], syn |-> "stmt", label |-> StmtForms[k][4],
-     outer |-> StmtCtx[o][1], inner |-> "",
-     text |-> StmtCtx[o][2] \o StmtForms[k][6] \o StmtCtx[o][3],
-     truth |-> Truth(StmtForms[k][2], {StmtCtx[o][4]}),
-     thr |-> StmtForms[k][3] /\ StmtCtx[o][4] = "same",
-     formTruth |-> StmtForms[k][2]]
-    : o \in {j \in 1..Len(StmtCtx) : ~StmtForms[k][5] \/ j = 1} } : k \in 1..Len(StmtForms) }
+\* one statement = form k in outer context o (and inner context i, 0 = none)
+ExprStmt(k, o, i) ==
+  [rec |-> "stmt", form |-> ExprForms[k][1], syn |-> "expr", label |-> ExprForms[k][4],
+   outer |-> Outer[o][1], inner |-> IF i = 0 THEN "" ELSE Inner[i][1],
+   text |-> IF i = 0 THEN Outer[o][2] \o ExprForms[k][5] \o Outer[o][3]
+            ELSE Outer[o][2] \o Inner[i][2] \o ExprForms[k][5] \o Inner[i][3] \o Outer[o][3],
+   truth |-> Truth(ExprForms[k][2], {Outer[o][4]} \cup (IF i = 0 THEN {} ELSE {Inner[i][4]})),
+   thr |-> ExprForms[k][3] /\ Outer[o][4] = "same" /\ (i = 0 \/ Inner[i][4] = "same"),
+   formTruth |-> ExprForms[k][2]]
+StmtStmt(k, o) ==
+  [rec |-> "stmt", form |-> StmtForms[k][1], syn |-> "stmt", label |-> StmtForms[k][4],
+   outer |-> StmtCtx[o][1], inner |-> "",
+   text |-> StmtCtx[o][2] \o StmtForms[k][6] \o StmtCtx[o][3],
+   truth |-> Truth(StmtForms[k][2], {StmtCtx[o][4]}),
+   thr |-> StmtForms[k][3] /\ StmtCtx[o][4] = "same",
+   formTruth |-> StmtForms[k][2]]
+\* `top`-only statement forms (export ...) appear in the plain context only
+StmtCtxOf(k) == {j \in 1..Len(StmtCtx) : ~StmtForms[k][5] \/ j = 1}
 
 -----------------------------------------------------------------------------
 (* Graph shapes: concrete texts and the abstract Shake graph                *)
@@ -456,6 +450,7 @@ GraphRecord(s, t, ign) ==
       Gr == ShapeGraph(s, eff, ign)
       GrE == ShapeGraph(s, TRUE, ign)
       keep == MustKeepParts(Gr)
+      keepE == IF eff THEN keep ELSE MustKeepParts(GrE)
       all == {r \in EffectParts(Gr) : r[1] \in NativeFiles(Gr)}
       fname == IF t = "ann" THEN "F.ann" ELSE "F"
       ren(S) == {IF x = "F" THEN fname ELSE x : x \in S}
@@ -464,9 +459,9 @@ GraphRecord(s, t, ign) ==
       mayVanish |-> ren(ProbesOf(Gr, all \ keep)) \cup (IF t = "ann" /\ ~ign THEN {"F.ann"} ELSE {}),
       native |-> ren(ProbesOf(Gr, all)) \cup (IF t = "ann" THEN {"F.ann"} ELSE {}),
       \* may an ANNOTATED probe inside a statement that otherwise must stay vanish?
-      annKeep |-> ign /\ <<s.slotFile, SlotIdx>> \in MustKeepParts(GrE),
+      annKeep |-> ign /\ <<s.slotFile, SlotIdx>> \in keepE,
       \* is the slot statement one that the bundle must execute if it has an effect?
-      slotKept |-> <<s.slotFile, SlotIdx>> \in MustKeepParts(GrE)]
+      slotKept |-> <<s.slotFile, SlotIdx>> \in keepE]
 
 ShapeRecord(s) ==
   [rec |-> "shape", id |-> s.id, slotFile |-> s.paths[s.slotFile], paths |-> s.paths,
@@ -479,7 +474,8 @@ Next0 == x' = x
 GenSpec == Init0 /\ [][Next0]_x
 
 Export ==
-  /\ \A r \in StmtRecords : PrintT(<<"CASE", ToJson(r)>>)
+  /\ \A k \in 1..Len(ExprForms) : \A o \in 1..Len(Outer) : \A i \in 0..Len(Inner) : PrintT(<<"CASE", ToJson(ExprStmt(k, o, i))>>)
+  /\ \A k \in 1..Len(StmtForms) : \A o \in StmtCtxOf(k) : PrintT(<<"CASE", ToJson(StmtStmt(k, o))>>)
   /\ \A k \in 1..Len(Shapes) : PrintT(<<"CASE", ToJson(ShapeRecord(Shapes[k]))>>)
   /\ \A k \in 1..Len(Shapes) : \A t \in {"yes", "no", "ann"} : \A ign \in BOOLEAN :
         PrintT(<<"CASE", ToJson(GraphRecord(Shapes[k], t, ign))>>)
@@ -491,10 +487,7 @@ ASSUME \A k \in 1..Len(ExprForms) : ExprForms[k][2] \in {"yes", "no", "ann"}
 ASSUME \A k \in 1..Len(StmtForms) : StmtForms[k][2] \in {"yes", "no", "ann"}
 \* throwing is an effect
 ASSUME \A k \in 1..Len(ExprForms) : ExprForms[k][3] => ExprForms[k][2] = "yes"
-\* in the un-annotated family nothing may vanish: every probe of every shape without sideEffects:false must be kept
-ASSUME \A k \in 1..Len(Shapes) : Shapes[k].seFalse = {} =>
-          GraphRecord(Shapes[k], "yes", FALSE).mayVanish = {}
-\* and ignoring annotations restores that for every shape
-ASSUME \A k \in 1..Len(Shapes) : GraphRecord(Shapes[k], "yes", TRUE).mayVanish = {}
+\* (the harness checks on the exported graph records that in the un-annotated
+\* family, and whenever annotations are ignored, nothing may vanish)
 ASSUME Export
 =============================================================================
